@@ -285,6 +285,8 @@ class IniConfigParser(ConfigFileParser):
         """Parses the keys and values from an INI config file."""
         # parse with configparser to allow multi-line values
         config = configparser.ConfigParser(interpolation=None)
+        # Option names are case sensitive, like on the command line and in a TOML file.
+        config.optionxform = str # type: ignore[assignment, method-assign]
         try:
             config.read_string(stream.read())
         except Exception as e:
